@@ -4,6 +4,7 @@ import MesaModel.Proofs.LegacyHex
 import MesaModel.Proofs.LegacyNet
 import MesaModel.Proofs.LegacyDist
 import MesaModel.Proofs.LegacyNetState
+import MesaModel.Proofs.LegacyIndex
 /-!
 # C09 — legacy neighbourhood queries return exactly the cells/agents in range
 
@@ -84,6 +85,16 @@ theorem C09_neighbors_spec (g : Grid) (hi : Inv g) (cells : List Coord) (hnd : c
     cellsContents g cells = cells.flatMap g.content :=
   ⟨(cellsContents_spec g hi cells hnd).1, (cellsContents_spec g hi cells hnd).2, cellsContents_eq g hi cells⟩
 
+/-- **`get_cell_list_contents` / `iter_cell_list_contents` for arbitrary integer coordinates** (they index
+    `self._grid[x][y]` directly): in-grid coordinates are read as they are — the answer is `cellsContents` of the
+    list, specified by `C09_neighbors_spec` —; whenever the call returns, every coordinate denoted a cell of the
+    grid (Python's aliasing of `-size .. -1`); a coordinate beyond that raises IndexError and nothing is returned -/
+theorem C09_cell_list_contents_any_integers (g : Grid) (hw : 0 < g.w) (hh : 0 < g.h) (ps : List Coord) :
+    ((∀ p ∈ ps, g.inGrid p) → g.rawCells ps = .ok ps) ∧
+    (∀ cs, g.rawCells ps = .ok cs → cs.length = ps.length ∧ ∀ c ∈ cs, g.inGrid c) ∧
+    ((∃ p ∈ ps, p.1 < -g.w ∨ g.w ≤ p.1 ∨ p.2 < -g.h ∨ g.h ≤ p.2) → ∃ e, g.rawCells ps = .error e) :=
+  ⟨rawCells_inGrid g ps, rawCells_ok g ps, rawCells_error g hw hh ps⟩
+
 /-- so the neighbours of a query are the agents standing on cells in range -/
 theorem C09_get_neighbors_exact (g : Grid) (hi : Inv g) (hw : 0 < g.w) (hh : 0 < g.h) (k : NKey) (l : List Coord)
     (h : nbhdCompute g.dim k = .ok l) (a : Aid) :
@@ -147,6 +158,8 @@ example : hexCompute ⟨4, 4, true⟩ (0, 0) false 1 = [(0, 1), (0, 3), (1, 0), 
 example : SimpleEdges [(2, 1), (1, 0), (3, 1)] := by unfold SimpleEdges; decide
 example : (Net.init 4 [(2, 1), (1, 0), (3, 1)]).nbhd 1 true 1 = [2, 0, 3, 1] := by decide
 example : 3 ∈ ball (adjOf [(2, 1), (1, 0), (3, 1)]) 2 0 := by decide
+example : (init 3 2 false true 11).rawCells [(-1, -1), (0, 0)] = .ok [(2, 1), (0, 0)] := by rfl
+example : (init 3 2 false true 11).rawCells [(0, 0), (3, 0)] = .error .index := by rfl
 /-- two agents on one node, one on another: the neighbours of node 0 within one hop, in `G.neighbors` order -/
 example : (nrun (Net.init 4 [(2, 1), (1, 0), (3, 1)]) [.place 0 1, .place 1 3, .place 2 1]).cellsContents
     ((Net.init 4 [(2, 1), (1, 0), (3, 1)]).nbhd 0 true 1) = [0, 2] := by decide
